@@ -25,7 +25,10 @@ RULE_ADDED = (
               'TCPSigner transport; 6% write one hex field with ASCII blanks (refusal without '
               'contact, or exactly those bytes relayed); script / output-script lengths and input / '
               'output counts on varint boundaries; receipts whose length sits on RLP / chunk '
-              'boundaries; device signatures of every well-formed shape ')
+              'boundaries; device signatures of every well-formed shape '
+              ' '
+              'Round 8: scripts whose final operation also occurs earlier in the script; loggin'
+              'g configured as shipped. ')
 RULE = RULE + " " + RULE_ADDED.strip()
 ASSUMPTIONS = [
     "device model and fake HID transport are trusted (pv/simdev); they follow the framing only",
